@@ -301,7 +301,19 @@ func (g *qqGen) macroProgram() (defs []MalType, callForm MalType) {
 		ls(sy("def"), sy("x"), 7), ls(sy("def"), sy("ys"), call1("list", 1, 2)), ls(sy("def"), sy("vs"), vc(3, 4)),
 		ls(sy("def"), sy("f1"), ls(sy("fn"), vc(sy("a")), call1("trace!", call1("+", sy("a"), 1)))),
 	}
-	switch r.intn(9) {
+	switch r.intn(12) {
+	case 9: // expansion is a VECTOR literal with non-constant elements: it still has to be evaluated
+		defs = append(defs, ls(sy("defmacro"), sy("m"), ls(sy("fn"), vc(sy("a"), sy("b")),
+			call1("quasiquote", vc(call1("unquote", sy("a")), call1("unquote", sy("b")), sy("x"))))))
+		callForm = ls(sy("m"), call1("trace!", call1("+", sy("x"), 1)), sy("x"))
+	case 10: // expansion is a MAP literal / a symbol / a constant
+		defs = append(defs, ls(sy("defmacro"), sy("m"), ls(sy("fn"), vc(sy("a")),
+			[]MalType{HashMap{Val: map[string]MalType{kw("v"): sy("a")}}, sy("a"), call1("quasiquote", sy("ys")), 42}[r.intn(4)])))
+		callForm = ls(sy("m"), []MalType{call1("trace!", call1("+", sy("x"), 1)), sy("x"), sy("ys")}[r.intn(3)])
+	case 11: // the macro's own argument evaluated or not: expands to (list 'a a)
+		defs = append(defs, ls(sy("defmacro"), sy("m"), ls(sy("fn"), vc(sy("a")),
+			call1("list", call1("quote", sy("list")), call1("list", call1("quote", sy("quote")), sy("a")), sy("a")))))
+		callForm = ls(sy("m"), call1("trace!", sy("x")))
 	case 7: // an expander with a side effect that then fails (or not): the effect must happen once
 		defs = append(defs, ls(sy("defmacro"), sy("m"), ls(sy("fn"), vc(sy("a")),
 			call1("trace!", kw("expanding")), ls(sy("if"), sy("a"), call1("throw", "bad macro argument"), call1("quasiquote", ls(sy("f1"), 1))))))
@@ -642,10 +654,20 @@ func (g *cancelGen) program() (MalType, bool) {
 	loop := ls(sy("def"), sy("spin"), ls(sy("fn"), vc(sy("n")), call1("trace!", sy("n")), ls(sy("spin"), call1("+", sy("n"), 1))))
 	nontail := ls(sy("def"), sy("deep"), ls(sy("fn"), vc(sy("n")), ls(sy("if"), call1("<", sy("n"), 1), 0, call1("+", 1, ls(sy("deep"), call1("-", sy("n"), 1))))))
 	macroLoop := ls(sy("def"), sy("mspin"), ls(sy("fn"), vc(sy("n")), ls(sy("cond"), false, 0, true, ls(sy("mspin"), call1("+", sy("n"), 1)))))
-	forms := []MalType{sy("do"), loop, nontail, macroLoop}
+	// pure macro recursion: every expansion is again a macro call (no function application in between)
+	macroRec := ls(sy("defmacro"), sy("mrec"), ls(sy("fn"), vc(sy("n")), call1("quasiquote", ls(sy("mrec"), call1("unquote", call1("+", sy("n"), 1))))))
+	macroRec2 := ls(sy("defmacro"), sy("mping"), ls(sy("fn"), vc(sy("n")), call1("quasiquote", ls(sy("mpong"), call1("unquote", sy("n"))))))
+	macroRec3 := ls(sy("defmacro"), sy("mpong"), ls(sy("fn"), vc(sy("n")), call1("quasiquote", ls(sy("mping"), call1("unquote", sy("n"))))))
+	forms := []MalType{sy("do"), loop, nontail, macroLoop, macroRec, macroRec2, macroRec3}
 	infinite := true
 	var e MalType
-	switch r.intn(8) {
+	switch r.intn(11) {
+	case 8:
+		e = ls(sy("mrec"), 0)
+	case 9:
+		e = ls(sy("mping"), 1)
+	case 10:
+		e = ls(sy("try"), ls(sy("spin"), 0), ls(sy("catch"), sy("e"), ls(sy("mrec"), 0)), ls(sy("finally"), ls(sy("mping"), 0)))
 	case 0:
 		e = ls(sy("spin"), 0)
 	case 1:
